@@ -76,20 +76,42 @@ def gen_x(rng, kind, n, nk, lo, hi):
     return x
 
 
-def gen_range(rng):
+SCALES = [1e-15, 1e-12, 1e-9, 1e-6, 1e6, 1e12, 1e-300]
+
+
+def gen_range(rng, allow_denormal=False):
+    """(lo, hi).  Besides ordinary ranges: SCALE families (whole axis multiplied by 1e-15 .. 1e12, 1e-300, and -- only for the
+    bit-exact correspondence -- a denormal-adjacent 1e-310) and OFFSET families (x + 1e6, x + 1e12 with a spacing that is still
+    well representable), so that nothing in the kernels can depend on the absolute size of x or of the knot spacing."""
     c = rng.random()
-    if c < 0.4:
+    if c < 0.30:
         lo = float(rng.uniform(-10, 10))
-        return lo, lo + float(rng.uniform(0.5, 100))
-    if c < 0.6:
-        return 0.0, float(2 ** int(rng.integers(-4, 12)))
-    if c < 0.8:
+        lo, hi = lo, lo + float(rng.uniform(0.5, 100))
+    elif c < 0.40:
+        lo, hi = 0.0, float(2 ** int(rng.integers(-4, 12)))
+    elif c < 0.50:
         lo = float(rng.uniform(-1, 1)) * 10.0 ** int(rng.integers(-8, 9))
-        return lo, lo + abs(lo) * float(rng.uniform(0.01, 3)) + 10.0 ** int(rng.integers(-8, 3))
-    return 1.0, 100.0 + float(rng.integers(0, 4000))
+        lo, hi = lo, lo + abs(lo) * float(rng.uniform(0.01, 3)) + 10.0 ** int(rng.integers(-8, 3))
+    elif c < 0.60:
+        lo, hi = 1.0, 100.0 + float(rng.integers(0, 4000))
+    elif c < 0.88:
+        sc = SCALES[int(rng.integers(0, len(SCALES)))]
+        if allow_denormal and rng.random() < 0.15:
+            sc = 1e-310
+        base_lo = float(rng.choice([0.0, 400.0, -3.0, float(rng.uniform(-10, 10))]))
+        base_hi = base_lo + float(rng.choice([300.0, 1.0, float(rng.uniform(0.5, 100))]))
+        lo, hi = base_lo * sc, base_hi * sc
+    else:
+        off = float(rng.choice([1e6, -1e6, 1e12, -1e12]))
+        width = float(rng.uniform(1.0, 500.0)) if abs(off) > 1e9 else float(rng.uniform(1e-3, 500.0))
+        lo = off + float(rng.uniform(0, 10))
+        lo, hi = lo, lo + width
+    if not hi > lo:
+        hi = lo + max(abs(lo), 1e-300)
+    return lo, hi
 
 
-def gen_config(rng, c, small=True):
+def gen_config(rng, c, small=True, allow_denormal=False):
     """(degree, num_knots, x, knots): penalized knots from _spline_knots; Coq-side arrays stay small."""
     S = su()
     k = c % 7
@@ -100,7 +122,7 @@ def gen_config(rng, c, small=True):
         nk = int(rng.integers(12, 60))
     else:
         nk = int(rng.integers(60, 201))
-    lo, hi = gen_range(rng)
+    lo, hi = gen_range(rng, allow_denormal)
     kind = X_KINDS[(c // 7) % len(X_KINDS)]
     nmax = max(2, min(40, 400 // (k + 1))) if small else 400
     if nk > 60 and small:
@@ -112,14 +134,17 @@ def gen_config(rng, c, small=True):
 
 
 def gen_raw_knots(rng, c):
-    """hand-made non-decreasing knot vectors (duplicates at the ends and inside), x anywhere in
-    [t_k, t_nb]: exercises the `left_knot == right_knot` branch and non-uniform spacing."""
+    """hand-made non-decreasing knot vectors: duplicates at the ends and inside (also the LAST interior interval, the only way
+    _find_interval can hand _de_boor a zero-length interval: both branches of `left_knot == right_knot`), non-uniform spacing,
+    and absolute scales from 1e-14 (spacing ~1e-13 and below) to 1e12; x anywhere in [t_k, t_nb], often exactly on knots."""
     k = c % 5
     nint = int(rng.integers(2, 9))
     inner = np.sort(rng.uniform(0, 10, nint))
     if rng.random() < 0.5 and nint > 2:
         j = int(rng.integers(0, nint - 1))
         inner[j + 1] = inner[j]
+    if (c // 3) % 4 == 0 and nint > 2:
+        inner[-1] = inner[-2]          # repeated right end: x = t_nb falls in a zero-length interval
     mode = c % 3
     if mode == 0:     # clamped: end knots repeated (what _spline_knots(penalized=False) produces)
         knots = np.concatenate((np.repeat(inner[0], k), inner, np.repeat(inner[-1], k)))
@@ -131,7 +156,9 @@ def gen_raw_knots(rng, c):
     x = rng.uniform(inner[0], inner[-1], n)
     pick = rng.choice(inner, size=n)
     x = np.where(rng.random(n) < 0.5, pick, x)
-    return k, x, knots
+    x[0] = inner[-1] if rng.random() < 0.5 else x[0]
+    sc = float(rng.choice([1.0, 1.0, 1e-14, 1e-12, 1e-9, 1e-6, 1e6, 1e12, 1e-300]))
+    return k, x * sc, knots * sc
 
 
 # ------------------------------------------------------------------------------ correspondence
@@ -189,6 +216,13 @@ def run_cases(ctx, name, ty, lits, okdef, per, ob, descr, mk_case):
 
 
 def correspondence(ctx):
+    # NaN/inf can legitimately appear (denormal scale, zero-length intervals called directly): compared bit-for-bit like any value
+    with warnings.catch_warnings(), np.errstate(all='ignore'):
+        warnings.simplefilter('ignore')
+        return _correspondence(ctx)
+
+
+def _correspondence(ctx):
     S = su()
     mk = getattr(S, '__make_design_matrix')
     rng = np.random.default_rng(ctx.seed + 12)
@@ -203,7 +237,7 @@ def correspondence(ctx):
             k, x, knots = gen_raw_knots(rng, c)
             kind, nk = 'raw-knots', len(knots) - 2 * k
         else:
-            k, nk, kind, x, knots = gen_config(rng, c)
+            k, nk, kind, x, knots = gen_config(rng, c, allow_denormal=True)
         n = len(x)
         y = rng.normal(0, 1, n) * 10.0 ** int(rng.integers(-3, 4))
         w = rng.random(n)
@@ -235,7 +269,7 @@ def correspondence(ctx):
                           'y': y.tolist(), 'weights': w.tolist()})
         on_knot = bool(np.isin(x, knots[k + 1:nb]).any())
         ctx.case(('design', k, nk, kind, x.tobytes(), w.tobytes()), nontrivial=n >= 2 and nb > k,
-                 kind=f'design:{kind}:deg{k}:{"onknot" if on_knot else "off"}')
+                 kind=f'design:{kind}:deg{k}:{"onknot" if on_knot else "off"}:spacing1e{int(np.floor(np.log10(max(np.max(np.diff(knots)), 5e-324))))}')
     ctx.sample({'kind': 'design-case', 'coq_literal_head': lits[0][:240]})
     bad |= run_cases(
         ctx, 'design', 'nat * list float * list float * list float * list float * list float * list nat * list nat '
@@ -282,9 +316,12 @@ def correspondence(ctx):
             k, nk, kind, x, knots = gen_config(rng, c)
         nb = len(knots) - k - 1
         qs = []
-        for xv in x[:6]:
-            xv = float(xv)
-            ell = int(S._find_interval(knots, k, xv, k, nb))
+        queries = [(float(xv), int(S._find_interval(knots, k, float(xv), k, nb))) for xv in x[:5]]
+        # any interval index, also zero-length ones (repeated knots) and x outside the interval: both branches of the `==` test
+        for _ in range(3):
+            ell = int(rng.integers(k, nb))
+            queries.append((float(rng.choice([knots[ell], knots[ell + 1], x[0]])), ell))
+        for xv, ell in queries:
             work0 = rng.normal(0, 1, 2 * (k + 1))
             for f in (S._de_boor, S._de_boor.py_func):
                 work = work0.copy()
@@ -299,7 +336,7 @@ def correspondence(ctx):
                 qs.append(f'({hexf(xv)}, {ell}, {fl(work0)}, {fl(work)})')
             ctx.case(('deboor', k, knots.tobytes(), xv), nontrivial=k >= 1, kind=f'deboor:deg{k}')
         lits.append(f'({k}, {fl(knots)}, [{"; ".join(qs)}])')
-        metas.append({'kind': 'deboor-corr', 'degree': k, 'knots': knots.tolist(), 'x': [float(v) for v in x[:6]]})
+        metas.append({'kind': 'deboor-corr', 'degree': k, 'knots': knots.tolist(), 'x': [q[0] for q in queries]})
     bad |= run_cases(ctx, 'deboor', 'nat * list float * list (float * nat * list float * list float)', lits, OK_DEBOOR,
                      200, 'correspondence:_de_boor(jit,py_func)-stale-work', '_de_boor', lambda i: metas[i])
     return bad
@@ -573,7 +610,8 @@ def oracle(ctx, budget):
 
 
 def run(ctx):
-    ctx.rule = ('penalized knot vectors from _spline_knots with num_knots 2..200, degree 0..6, x ranges of many scales; x kinds '
+    ctx.rule = ('penalized knot vectors from _spline_knots with num_knots 2..200, degree 0..6; x ranges ordinary, SCALED by 1e-15/1e-12/1e-9/1e-6/1e6/1e12/1e-300 '
+                '(and 1e-310, denormal, in the bit-exact cases) and OFFSET by +-1e6/+-1e12; x kinds '
                 'uniform / exactly on knots / one ulp beside knots / clustered / repeated / unsorted / fewer points than basis '
                 'functions / end points only; hand-made non-decreasing knot vectors with duplicate knots (degenerate branch of '
                 '_de_boor); weights random / half zeros / all zeros / signed many decades; non-trivial = at least 2 points and '
